@@ -10,9 +10,9 @@ from props import C07 as T07
 PID = 'C19'
 PROPERTY_FILE = 'Properties/C19.v'
 # generated model parts (translate/) this property's model / proofs really depend on
-GEN_DEPS = ['QuantityImpl']
+GEN_DEPS = ['QuantityImpl', 'HashImpl']
 MODEL_TARGETS = ['Corr/HashCorr.vo']
-PROOF_TARGETS = ['Proofs/C19Proofs.vo', 'Proofs/C07Proofs.vo']
+PROOF_TARGETS = ['Proofs/GenHashEq.vo', 'Proofs/C19Proofs.vo', 'Proofs/C07Proofs.vo']
 COQ_HEADER = ("From QV Require Import Model.Num Model.Rounding Model.Quantity Model.Rates "
               "Model.Hash Corr.Common Corr.Obs Corr.HashCorr.")
 COQ_CHECK = 'h_check'
